@@ -56,27 +56,34 @@ func pdrBox(p *rPDR, pfd map[string][]string) refBox {
 	}
 	if desc != "" {
 		rf, err := refParseFlow(desc)
+		var rem, ueSide refEndpoint
+		if err == nil {
+			rem, ueSide = rf.Src, rf.Dst
+			if rf.Src.Assigned && !rf.Dst.Assigned {
+				rem, ueSide = rf.Dst, rf.Src // the endpoints written in the other order: the remote one is the one that is not 'assigned'
+			}
+		}
 		switch {
 		case err != nil:
 			b.strict, b.why = false, "malformed flow description"
-		case !rf.Dst.Assigned || rf.Src.Assigned:
-			b.strict, b.why = false, "UE side of the flow description is not 'assigned'"
-		case rf.Dst.HasPort:
+		case !ueSide.Assigned || rem.Assigned:
+			b.strict, b.why = false, "no side (or both sides) of the flow description is 'assigned'"
+		case ueSide.HasPort:
 			b.strict, b.why = false, "port on the UE side"
 		case rf.Proto == 0 || rf.Proto == 255:
 			b.strict, b.why = false, "protocol 0/255"
-		case rf.Src.HasPort && rf.Src.Lo == 0 && rf.Src.Hi == 0:
+		case rem.HasPort && rem.Lo == 0 && rem.Hi == 0:
 			b.strict, b.why = false, "port 0"
 		default:
 			if rf.Proto >= 0 {
 				b.v[fbProto], b.m[fbProto] = uint64(rf.Proto), 0xFF
 			}
-			b.v[remF], b.m[remF] = uint64(rf.Src.IP), uint64(refMask(rf.Src.Len))
-			if rf.Src.HasPort {
+			b.v[remF], b.m[remF] = uint64(rem.IP), uint64(refMask(rem.Len))
+			if rem.HasPort {
 				if remPortIsSrc {
-					b.sLo, b.sHi = rf.Src.Lo, rf.Src.Hi
+					b.sLo, b.sHi = rem.Lo, rem.Hi
 				} else {
-					b.dLo, b.dHi = rf.Src.Lo, rf.Src.Hi
+					b.dLo, b.dHi = rem.Lo, rem.Hi
 				}
 			}
 		}
